@@ -222,6 +222,22 @@ mod verif_filters {
         }
     }
 
+    /// The same clause where the candidates after the first K fill at least one full 4-lane SIMD
+    /// chunk (the vectorised pre-filter of SimdTopK::eval only runs on full chunks), with and
+    /// without a scalar tail.
+    #[kani::proof]
+    #[kani::stub(Avx2Isa::new, no_avx2)]
+    #[kani::stub(Avx512Isa::new, no_avx512)]
+    #[kani::unwind(9)]
+    pub fn topk_k_largest_total_order_simd_chunk() {
+        let which: u8 = kani::any();
+        match which {
+            0 => topk_contract::<5>(1, true),
+            1 => topk_contract::<6>(1, true),
+            _ => topk_contract::<6>(2, true),
+        }
+    }
+
     /// Empty input: any k, returns empty, no panic.
     #[kani::proof]
     #[kani::stub(Avx2Isa::new, no_avx2)]
